@@ -14,6 +14,7 @@ EXPLANATION = (
     "get_field_by_id raises on every path where no field matches. [ENC-WRAP] whatever leaves _call_encode_function is ValueError. "
     "[ENC-PRODUCER] inventory of what reaches each mask: range-checked (encode_number, encode_float) versus unchecked producers. "
     "ENC-RANGE / SIGN-AGREE / ENC-NA are read off the encode_number residual evaluated as an exact piecewise-affine function of round(value/resolution) over all integers (piece.py); ENC-MISSING and the encoder lookup are decided by interpreting get_field_by_id and _call_encode_function. UNDECIDED: the numeric 'within half a resolution step' for accepted values."
+    ' ENC-MISSING is decided on histories as well: the same message asked again after one field was replaced, after a new field list was assigned, after an append (a lookup cache that is not refreshed fails). SENT-AGREE / SIGN-AGREE (C02) are included: an absent value must be written as the pattern the decoder reads as absent.'
 )
 ASSUMPTIONS = ["CPython ast parser", "canboat.json is the oracle", "sym.py partial evaluation",
                "struct.pack('<f') raises on values outside the 32-bit float range (documented)"]
